@@ -1893,3 +1893,27 @@ R.mutant("benign-list-insert-keyword-free-helper-closure", COLL,
              "    def _announce(coll, member, position):\n        return __set(coll, member, None, position)\n\n"
              "    def insert(fn):\n        def insert(self, index, value):\n            value = _announce(self, value, index)\n            fn(self, index, value)\n"),
          None)
+# the repairs proposed for the C38-R12 findings on the unchanged tree (notes/str2-q.md) must raise nothing new
+_SLICE_OLD = ("                step = index.step or 1\n                start = index.start or 0\n                if start < 0:\n                    start += len(self)\n"
+              "                if index.stop is not None:\n                    stop = index.stop\n                else:\n                    stop = len(self)\n"
+              "                if stop < 0:\n                    stop += len(self)\n\n                if step == 1:\n                    if value is self:\n                        return\n"
+              "                    for i in range(start, stop, step):\n                        if len(self) > start:\n                            del self[start]\n")
+_SLICE_FIX = ("                value = list(value)\n                start, stop, step = index.indices(len(self))\n\n                if step == 1:\n"
+              "                    for i in range(start, max(start, stop)):\n                        del self[start]\n")
+R.mutant("fix-list-setitem-slice-by-slice-indices", COLL, sub(_SLICE_OLD, _SLICE_FIX), None)
+R.mutant("fix-set-difference-update-iterates-a-snapshot", COLL,
+         _chain(sub("        def difference_update(self, value):\n            for item in value:\n", "        def difference_update(self, value):\n            for item in list(value):\n"),
+                sub("                return NotImplemented\n            for item in value:\n                self.discard(item)\n", "                return NotImplemented\n            for item in list(value):\n                self.discard(item)\n")),
+         None)
+# ... and a half repair is still shown (start clamped, negative steps still read with the defaults of a positive one)
+R.mutant("list-setitem-slice-clamps-start-only", COLL,
+         sub("                if start < 0:\n                    start += len(self)\n", "                if start < 0:\n                    start = max(0, start + len(self))\n"),
+         None)
+R.mutant("benign-dict-pop-forwards-optional-default-as-star-args", COLL,
+         sub("        def pop(self, key, default=NO_ARG):\n            __before_pop(self)\n            _to_del = key in self\n            if default is NO_ARG:\n                item = fn(self, key)\n            else:\n                item = fn(self, key, default)\n",
+             "        def pop(self, key, *default):\n            __before_pop(self)\n            _to_del = key in self\n            item = fn(self, key, *default)\n"),
+         None)
+R.mutant("benign-list-setitem-error-message-as-fstring-and-walrus", COLL,
+         sub("                    rng = list(range(start, stop, step))\n                    if len(value) != len(rng):\n                        raise ValueError(\n                            \"attempt to assign sequence of size %s to \"\n                            \"extended slice of size %s\"\n                            % (len(value), len(rng))\n                        )\n",
+             "                    rng = list(range(start, stop, step))\n                    if (given := len(value)) != len(rng):\n                        raise ValueError(\n                            f\"attempt to assign sequence of size {given} to \"\n                            f\"extended slice of size {len(rng)}\"\n                        )\n"),
+         None)
